@@ -258,3 +258,27 @@ package harfbuzz
 //@   ensures [nesting-budget-enforced] implies(old(c.nestingLevelLeft) == 0 || old(c.recurseFunc) == nil, !result && c.buffer.maxOps == old(c.buffer.maxOps) && c.nestingLevelLeft == old(c.nestingLevelLeft))
 //@   ensures [operation-budget-enforced] implies(old(c.nestingLevelLeft) != 0 && old(c.recurseFunc) != nil && old(c.buffer.maxOps) <= 0, !result && c.nestingLevelLeft == old(c.nestingLevelLeft))
 //@   modifies unspecified
+//
+// mergeOutClusters: the same contract as mergeClusters, on the out-buffer: below the Characters level every glyph of
+// [start, end) ends with the minimum cluster value of the range, whatever the order of the clusters (they are
+// descending for text shaped against its native direction), and cluster values only decrease.
+//@ func Buffer.mergeOutClusters C01
+//@   mode int
+//@   requires [range] 0 <= start && start <= end && end <= len(b.outInfo) && 0 <= b.idx
+//@   requires [distinct-buffers] rid(b.Info) != rid(b.outInfo) || len(b.Info) == 0
+//@   ensures [range-gets-its-minimum] implies(old(b.ClusterLevel) != Characters && end0-start0 >= 2, forall(i, start0, end0, forall(k, start0, end0, b.outInfo[i].Cluster <= old(b.outInfo[k].Cluster))))
+//@   ensures [clusters-only-decrease] forall(i, 0, len(b.outInfo), b.outInfo[i].Cluster <= old(b.outInfo[i].Cluster)) && forall(i, 0, len(b.Info), b.Info[i].Cluster <= old(b.Info[i].Cluster))
+//@   ensures [shape-kept] sameslice(b.Info, old(b.Info)) && sameslice(b.outInfo, old(b.outInfo)) && b.idx == old(b.idx)
+//@   modifies b.Info[:].Cluster; b.Info[:].Mask; b.outInfo[:].Cluster; b.outInfo[:].Mask
+//@   loop 1 invariant [i-range] start+1 <= i && i <= end && start == start0 && end == end0
+//@   loop 1 invariant [min-so-far] forall(k, start, i, cluster <= b.outInfo[k].Cluster)
+//@   loop 2 invariant [start-range] 0 <= start && start <= start0 && end == end0
+//@   loop 2 invariant [extension] forall(k, start, start0+1, b.outInfo[k].Cluster == b.outInfo[start0].Cluster)
+//@   loop 3 invariant [end-range] end0 <= end && end <= len(b.outInfo) && 0 <= start && start <= start0
+//@   loop 3 invariant [extension] forall(k, end0-1, end, b.outInfo[k].Cluster == b.outInfo[end0-1].Cluster)
+//@   loop 4 invariant [in] b.idx <= i && sameslice(b.Info, old(b.Info)) && sameslice(b.outInfo, old(b.outInfo)) && b.idx == old(b.idx) && forall(k, 0, len(b.Info), b.Info[k].Cluster <= old(b.Info[k].Cluster)) && endC >= cluster
+//@   loop 4 invariant [out-untouched] forall(k, 0, len(b.outInfo), b.outInfo[k].Cluster == old(b.outInfo[k].Cluster)) && 0 <= start && start <= start0 && end0 <= end && end <= len(b.outInfo) && forall(k, start, end, cluster <= old(b.outInfo[k].Cluster))
+//@   loop 5 invariant [i-range] start <= i && i <= end && 0 <= start && start <= start0 && end0 <= end && end <= len(b.outInfo) && sameslice(b.Info, old(b.Info)) && sameslice(b.outInfo, old(b.outInfo)) && b.idx == old(b.idx)
+//@   loop 5 invariant [assigned] forall(k, start, i, b.outInfo[k].Cluster == cluster) && forall(k, 0, len(b.outInfo), implies(k < start || k >= i, b.outInfo[k].Cluster == old(b.outInfo[k].Cluster)))
+//@   loop 5 invariant [min] forall(k, start, end, cluster <= old(b.outInfo[k].Cluster))
+//@   loop 5 invariant [in-kept] forall(k, 0, len(b.Info), b.Info[k].Cluster <= old(b.Info[k].Cluster))
